@@ -80,6 +80,17 @@ impl CodeCache {
       .and_then(|block| Some(block.offset))
   }
 
+  /// Verification hook (add-only, compiled only with `--cfg gb_dynarec_verif`):
+  /// (offset, length, bytes_translated) of the cached block a lookup of `ip` would return
+  #[cfg(gb_dynarec_verif)]
+  pub fn verif_block(&self, ip: usize) -> Option<(usize, usize, usize)> {
+    let gb_ip = ip as u16;
+    self.code_blocks
+      .get_region(gb_ip)
+      .and_then(|region| region.get(gb_ip))
+      .map(|block| (block.offset, block.length, block.bytes_translated))
+  }
+
   pub fn get_executable_memory_segment(&self, ip: usize, mem_ptr: *const MemoryAreas) -> &[u8] {
     let mem = unsafe { &*mem_ptr };
     match ip {
